@@ -506,7 +506,7 @@ def finish(prop, tier, seed, h, cases, results, wall):
             if x.get("tb"):
                 print(x["tb"])
     ev = dict(
-        property_id=prop, tier=tier, seed=seed, level="other",
+        property_id=prop, tier=tier, seed=seed, level=getattr(h, "LEVEL", "other"),
         coverage=dict(
             explanation=("bounded symbolic execution of evo's own functions (loaded from the "
                          "current /repo tree onto a symbolic numpy/math/scipy facade, real-number "
@@ -522,6 +522,9 @@ def finish(prop, tier, seed, h, cases, results, wall):
             case_names=[c["name"] for c in cases][:200],
             solver_queries=tot("queries"), solver_s=round(tot("solver_s"), 3),
             reachability_witnesses=tot("reach_sat"),
+            states=sum(d.get("states", 0) for d in results) or tot("distinct_paths"),
+            transitions=sum(d.get("transitions", 0) for d in results) or tot("queries"),
+            traces_validated_against_impl=tot("paths"),
             functions_encoded=getattr(h, "FUNCTIONS", []),
             bounds=getattr(h, "BOUNDS", {}).get(tier, getattr(h, "BOUNDS", {})),
             stubs=getattr(h, "STUBS", []), outside_claim=getattr(h, "OUTSIDE", []),
